@@ -17,6 +17,11 @@ EXPLANATION = ('PORT-TYPECHECK(K3), TAB-OPC, LW-SIB, SPLIT-SIB, RCP-NOOP, CBR-BI
          ' RV-HSEM, RV-SS-HSEM, GEN-RESET.'
          ' RV-MEM-HSEM, LW-VALUE.')
 
+CLAIM += (' Hand-written runtime (jit_compiler_rv64_static.S, assembled for RV64GC and for RV64GC+Zba+Zbb): the dataset read fragment that every program contains is executed on terms and must perform specification 4.6.2 steps 5-8 - zero-extended 32-bit XOR into mx (v1) or the shifted XOR into the upper half (v2), the eight line words XORed into r0..r7, next line pointer = dataset base + (ma:mx & CacheLineAlignMask), halves swapped (RV-DSREAD-HSEM); the routines called inside the loop (SuperscalarHash, software AES) change no VM register, table pointer or never-reloaded prologue constant (RV-RT-PRESERVE); constants reloaded inside the loop come from the entry the prologue used (RV-RT-CONST); the light-mode dataset offset is the configured one (RV-DSOFF).')
+EXPLANATION += ' RV-DSREAD-HSEM (2 builds x v1/v2), RV-RT-PRESERVE (18 call sites), RV-RT-CONST, RV-DSOFF.'
+
+TECHNIQUE += '; def-use, backward liveness and a frame-slot value-preservation analysis over the disassembly of the hand-written runtime assembled for the target (two ISA variants); translation validation of the dataset-read fragment on a term domain'
+
 
 def run(ctx, R):
     FI = astq.Facts(ctx, 'K0')
